@@ -482,6 +482,15 @@ class Interp:
             site = self.site(s)
             self.emit(s2, 'iter', s, iterable=it, site=site)
             self._consume(s2, s.iter, it, s)
+            # iterating an h2 object runs its __next__
+            for a in self.r.type_of(s.iter, s2.fi):
+                if a[0] == 'inst':
+                    nx = self.m.lookup_method(a[1], '__next__')
+                    if nx is not None and not nx.is_generator:
+                        exc = set(self.R.of(nx.qual)) - {'StopIteration'}
+                        self._opaque_call(s2, s, [], nx.qual, (), {}, it,
+                                          raises=exc, names=(nx.qual,))
+                        self._bump(s2, self.writes.attrs(nx.qual))
             # zero iterations
             s0 = s2.copy()
             out.extend(self.block(s.orelse, s0) if s.orelse
